@@ -72,6 +72,10 @@ const SEAL: RegisteredSealProof = RegisteredSealProof::StackedDRG32GiBV1P1;
 const SEAL_NI: RegisteredSealProof = RegisteredSealProof::StackedDRG32GiBV1P2_Feat_NiPoRep;
 const WPOST: RegisteredPoStProof = RegisteredPoStProof::StackedDRGWindow32GiBV1P1;
 const MAX_SECTORS_PER_MINER: usize = 36;
+/// DisputeWindowedPoSt records the faults of the disputed sectors with the sector infos of the deadline's
+/// SNAPSHOT (`Sectors::load(store, &dl_current.sectors_snapshot)`), so a sector whose power changed after
+/// the snapshot (ProveReplicaUpdates3 inside the dispute window) is debited with its OLD power.
+const DISPUTE_SNAPSHOT_CLASS: &str = "dispute-records-faults-with-snapshot-sector-power";
 const UPDATE_CLAIMED_POWER: u64 = PowerMethod::UpdateClaimedPower as u64;
 
 // ---------------------------------------------------------------------------------------------
@@ -155,6 +159,12 @@ struct Run<'a> {
     filtered: BTreeSet<String>,
     /// sector numbers changed (replica update / extension) at an epoch >= their expiration epoch
     rebased_after_expiry: BTreeSet<u64>,
+    /// see DISPUTE_SNAPSHOT_CLASS
+    tainted: Option<String>,
+    /// proof types of the case (32GiB, or 2KiB: partitions of 2 sectors)
+    seal: RegisteredSealProof,
+    seal_ni: RegisteredSealProof,
+    wpost: RegisteredPoStProof,
 }
 
 fn bump(cnt: &mut BTreeMap<String, u64>, k: &str, n: u64) {
@@ -201,6 +211,15 @@ impl<'a> Run<'a> {
     }
 
     fn fail(&mut self, class: &str, what: Vec<String>, detail: Value) {
+        // Once a successful DisputeWindowedPoSt has recorded faults with the power of the deadline's
+        // sector SNAPSHOT for sectors whose power changed since (diagnosed in op_dispute), the claim
+        // and the partition memos of this history are off for good: everything that follows in this
+        // history is reported, once, under the class of that cause (the first symptom is kept in the
+        // detail).
+        let (class, detail) = match &self.tainted {
+            Some(t) => (DISPUTE_SNAPSHOT_CLASS, json!({"cause": t, "first_symptom_class": class, "detail": detail})),
+            None => (class, detail),
+        };
         if !self.reported.insert(class.to_string()) {
             return;
         }
@@ -697,7 +716,7 @@ impl<'a> Run<'a> {
         let params = SubmitWindowedPoStParams {
             deadline: info.index,
             partitions: plist,
-            proofs: vec![PoStProof { post_proof: WPOST, proof_bytes: if invalid { TEST_VM_INVALID_POST.as_bytes().to_vec() } else { vec![] } }],
+            proofs: vec![PoStProof { post_proof: self.wpost, proof_bytes: if invalid { TEST_VM_INVALID_POST.as_bytes().to_vec() } else { vec![] } }],
             chain_commit_epoch: info.challenge,
             chain_commit_rand: Randomness(TEST_VM_RAND_ARRAY.into()),
         };
@@ -781,7 +800,7 @@ impl<'a> Run<'a> {
     fn op_precommit(&mut self, m: usize, r: &mut Prng) {
         let e = self.epoch();
         let k = 1 + r.below(4);
-        let base = e + max_prove_commit_duration(&self.policy, SEAL).unwrap() + self.policy.min_sector_expiration;
+        let base = e + max_prove_commit_duration(&self.policy, self.seal).unwrap() + self.policy.min_sector_expiration;
         let mut infos = vec![];
         let mut pend = vec![];
         let bad = r.chance(4);
@@ -800,13 +819,13 @@ impl<'a> Run<'a> {
                 }
             };
             infos.push(SectorPreCommitInfo {
-                seal_proof: SEAL,
+                seal_proof: self.seal,
                 sector_number: s,
                 sealed_cid: make_sealed_cid(format!("sn: {} {}", m, s).as_bytes()),
                 seal_rand_epoch: e - 1,
                 deal_ids: vec![],
                 expiration,
-                unsealed_cid: self.commd(&pieces, SEAL),
+                unsealed_cid: self.commd(&pieces, self.seal),
             });
             pend.push(PendingSector { number: s, pieces, claims });
         }
@@ -845,7 +864,7 @@ impl<'a> Run<'a> {
             }
             bump(self.cnt, "sectors_onboarded", nums.len() as u64);
         } else {
-            let maxd = max_prove_commit_duration(&self.policy, SEAL).unwrap();
+            let maxd = max_prove_commit_duration(&self.policy, self.seal).unwrap();
             let p = &mut self.miners[m].pending[i];
             if e > p.epoch + delay { p.tries += 1; }
             if p.tries >= 2 || e > p.epoch + maxd {
@@ -860,12 +879,42 @@ impl<'a> Run<'a> {
     }
 
     fn op_ni(&mut self, m: usize, r: &mut Prng) {
+        self.op_ni_at(m, r, None)
+    }
+
+    /// Scripted prelude: sectors NI-committed into two different mutable deadlines, one full proving
+    /// period of complete PoSts so both groups are proven and active, then ONE TerminateSectors message
+    /// with a declaration in each deadline.  The ordinary monitors judge the result.
+    fn scenario_two_deadline_termination(&mut self, m: usize, r: &mut Prng) {
+        let mutable = self.mutable_deadlines(m);
+        if mutable.len() < 2 {
+            return;
+        }
+        let a = *r.pick(&mutable);
+        let rest: Vec<u64> = mutable.iter().copied().filter(|d| *d != a).collect();
+        let b = *r.pick(&rest);
+        self.op_ni_at(m, r, Some(a));
+        self.op_ni_at(m, r, Some(b));
+        if r.chance(30) {
+            let c = *r.pick(&mutable);
+            self.op_ni_at(m, r, Some(c));
+        }
+        let per = self.policy.wpost_period_deadlines * self.miners.len() as u64;
+        let extra = r.below(per / 2 + 1);
+        self.advance(r, per + extra, 100);
+        if self.terminate_multi(m, r, 100, true) {
+            bump(self.cnt, "scripted_two_deadline_terminations", 1);
+        }
+    }
+
+    fn op_ni_at(&mut self, m: usize, r: &mut Prng, fixed: Option<u64>) {
         let e = self.epoch();
         let k = 1 + r.below(3);
         let mutable = self.mutable_deadlines(m);
         let dl = if !mutable.is_empty() && r.chance(88) { *r.pick(&mutable) } else { r.below(self.policy.wpost_period_deadlines) };
         // prefer a deadline that already has sectors half of the time
         let dl = if r.chance(40) { self.views[m].parts.iter().map(|p| p.dl).filter(|d| mutable.contains(d)).next().unwrap_or(dl) } else { dl };
+        let dl = fixed.unwrap_or(dl);
         let mut sectors = vec![];
         for _ in 0..k {
             let s = self.miners[m].next_sector;
@@ -884,7 +933,7 @@ impl<'a> Run<'a> {
         let params = ProveCommitSectorsNIParams {
             sectors,
             aggregate_proof: RawBytes::new(vec![1, 2, 3, 4]),
-            seal_proof_type: SEAL_NI,
+            seal_proof_type: self.seal_ni,
             aggregate_proof_type: RegisteredAggregateProof::SnarkPackV2,
             proving_deadline: dl,
             require_activation_success: true,
@@ -937,6 +986,9 @@ impl<'a> Run<'a> {
     }
 
     fn op_terminate(&mut self, m: usize, r: &mut Prng, diligence: u64) -> bool {
+        if self.terminate_multi(m, r, diligence, false) {
+            return true;
+        }
         let p = match self.pick_part(m, r, |p| !p.live.is_empty(), |p| self.is_mutable(m, p.dl)) { Some(p) => p, None => return false };
         let ss = subset(r, &bits(&p.live));
         let params = TerminateSectorsParams { terminations: vec![TerminationDeclaration { deadline: p.dl, partition: p.idx, sectors: bf(&ss) }] };
@@ -953,29 +1005,103 @@ impl<'a> Run<'a> {
         true
     }
 
+    /// Returns true when a multi-deadline TerminateSectors message was sent.
+    fn terminate_multi(&mut self, m: usize, r: &mut Prng, diligence: u64, force: bool) -> bool {
+        // One TerminateSectors message addressing several deadlines (the handler accumulates the power
+        // delta over the deadlines it touches): preferred when active sectors sit in 2+ mutable deadlines.
+        let mut by_dl: BTreeMap<u64, Vec<PartView>> = BTreeMap::new();
+        for p in self.views[m].parts.iter().filter(|p| !p.live.is_empty() && self.is_mutable(m, p.dl)) {
+            by_dl.entry(p.dl).or_default().push(p.clone());
+        }
+        let with_active: Vec<u64> = by_dl.iter().filter(|(_, ps)| ps.iter().any(|p| !p.active.is_empty())).map(|(d, _)| *d).collect();
+        if with_active.len() >= 2 && (force || r.chance(75)) {
+            let k = 2 + r.below((with_active.len() as u64 - 1).min(2)) as usize;
+            let mut dls = with_active.clone();
+            // deterministic shuffle
+            for i in (1..dls.len()).rev() { let j = r.below(i as u64 + 1) as usize; dls.swap(i, j); }
+            dls.truncate(k);
+            dls.sort();
+            let mut terminations = vec![];
+            let mut note = vec![];
+            let mut total = 0u64;
+            for d in &dls {
+                let ps = &by_dl[d];
+                let cands: Vec<&PartView> = ps.iter().filter(|p| !p.active.is_empty()).collect();
+                let p = *r.pick(&cands);
+                let pool = if r.chance(80) { bits(&p.active) } else { bits(&p.live) };
+                let ss = subset(r, &pool);
+                total += ss.len() as u64;
+                note.push(format!("dl{} p{} {:?}", p.dl, p.idx, ss));
+                terminations.push(TerminationDeclaration { deadline: p.dl, partition: p.idx, sectors: bf(&ss) });
+            }
+            let params = TerminateSectorsParams { terminations };
+            let (worker, addr) = (self.miners[m].worker, self.miners[m].addr);
+            let res = self.send("terminate_multi_deadline", format!("m{} {}", m, note.join(" + ")), &worker, &addr, MM::TerminateSectors as u64, Some(params));
+            if code(&res) == 0 {
+                bump(self.cnt, "terminations", 1);
+                bump(self.cnt, "terminations_spanning_2plus_deadlines", 1);
+                bump(self.cnt, "sectors_terminated", total);
+                if r.chance(70) {
+                    self.tick(r, diligence);
+                }
+            }
+            return true;
+        }
+        false
+    }
+
     fn op_extend(&mut self, m: usize, r: &mut Prng) -> bool {
         let p = match self.pick_part(m, r, |p| !p.active.is_empty(), |p| self.is_mutable(m, p.dl)) { Some(p) => p, None => return false };
-        let pool = if r.chance(90) { bits(&p.active) } else { bits(&p.live) };
-        let ss = subset(r, &pool);
+        // one message with declarations for several partitions of the SAME deadline (the handler groups
+        // the declarations by deadline and re-registers every touched partition at the new epoch)
+        let mut chosen: Vec<PartView> = vec![p.clone()];
+        let others: Vec<PartView> = self.views[m].parts.iter().filter(|q| q.dl == p.dl && q.idx != p.idx && !q.active.is_empty()).cloned().collect();
+        if !others.is_empty() && r.chance(75) {
+            let k = 1 + r.below((others.len() as u64).min(2)) as usize;
+            let mut o = others;
+            for i in (1..o.len()).rev() { let j = r.below(i as u64 + 1) as usize; o.swap(i, j); }
+            o.truncate(k);
+            chosen.extend(o);
+            chosen.sort_by_key(|q| q.idx);
+        }
         let e = self.epoch();
-        let max_old = p.infos.iter().filter(|i| ss.contains(&i.sector_number)).map(|i| i.expiration).max().unwrap_or(e);
+        let mut picked: Vec<(PartView, Vec<u64>)> = vec![];
+        let mut max_old = e;
+        let mut first = true;
+        for q in chosen {
+            let pool = if r.chance(90) { bits(&q.active) } else { bits(&q.live) };
+            let ss = subset(r, &pool);
+            let mo = q.infos.iter().filter(|i| ss.contains(&i.sector_number)).map(|i| i.expiration).max().unwrap_or(e);
+            max_old = if first { mo } else { max_old.max(mo) };
+            first = false;
+            picked.push((q, ss));
+        }
         let add = match r.below(10) { 0..=3 => EPOCHS_IN_DAY, 4..=7 => 30 * EPOCHS_IN_DAY, 8 => 300 * EPOCHS_IN_DAY, _ => -10 };
         let new_expiration = (max_old + add).min(e + self.policy.max_sector_expiration_extension);
-        let mut plain = vec![];
-        let mut with_claims = vec![];
-        for s in &ss {
-            let info = p.infos.iter().find(|i| i.sector_number == *s).unwrap();
-            match self.miners[m].claims.get(s) {
-                Some(c) if info.verified_deal_weight.is_positive() => with_claims.push(SectorClaim { sector_number: *s, maintain_claims: c.clone(), drop_claims: vec![] }),
-                _ => plain.push(*s),
+        let mut extensions = vec![];
+        let mut note = vec![];
+        for (q, ss) in &picked {
+            let mut plain = vec![];
+            let mut with_claims = vec![];
+            for s in ss {
+                let info = q.infos.iter().find(|i| i.sector_number == *s).unwrap();
+                match self.miners[m].claims.get(s) {
+                    Some(c) if info.verified_deal_weight.is_positive() => with_claims.push(SectorClaim { sector_number: *s, maintain_claims: c.clone(), drop_claims: vec![] }),
+                    _ => plain.push(*s),
+                }
             }
+            note.push(format!("dl{} p{} {:?}", q.dl, q.idx, ss));
+            extensions.push(ExpirationExtension2 { deadline: q.dl, partition: q.idx, sectors: bf(&plain), sectors_with_claims: with_claims, new_expiration });
         }
-        let params = ExtendSectorExpiration2Params {
-            extensions: vec![ExpirationExtension2 { deadline: p.dl, partition: p.idx, sectors: bf(&plain), sectors_with_claims: with_claims, new_expiration }],
-        };
+        let n = extensions.len();
+        let params = ExtendSectorExpiration2Params { extensions };
         let (worker, addr) = (self.miners[m].worker, self.miners[m].addr);
-        let res = self.send("extend", format!("m{} dl{} p{} {:?} -> {}", m, p.dl, p.idx, ss, new_expiration), &worker, &addr, MM::ExtendSectorExpiration2 as u64, Some(params));
-        if code(&res) == 0 { bump(self.cnt, "extensions", 1); }
+        let kind = if n > 1 { "extend_multi_partition" } else { "extend" };
+        let res = self.send(kind, format!("m{} {} -> {}", m, note.join(" + "), new_expiration), &worker, &addr, MM::ExtendSectorExpiration2 as u64, Some(params));
+        if code(&res) == 0 {
+            bump(self.cnt, "extensions", 1);
+            if n > 1 { bump(self.cnt, "extensions_of_2plus_partitions_of_one_deadline", 1); }
+        }
         true
     }
 
@@ -1044,7 +1170,52 @@ impl<'a> Run<'a> {
         let (dl, _) = self.miners[m].invalid_posts[i];
         let params = DisputeWindowedPoStParams { deadline: dl, post_index: 0 };
         let (disputer, addr) = (self.disputer, self.miners[m].addr);
+        // Sectors of this deadline that are active now and whose power in the deadline's sector snapshot
+        // (taken at the last deadline end; the dispute handler records faults with THOSE infos) differs
+        // from their power in the current sector table.
+        let stale: Vec<(u64, u64, String, String)> = {
+            let store = self.v.store.as_ref();
+            let st: MinerState = get_state(&self.v, &addr).unwrap();
+            let dls = st.load_deadlines(store).unwrap();
+            let d = dls.load_deadline(store, dl).unwrap();
+            let ss = self.miners[m].sector_size;
+            let mut out = vec![];
+            if let Ok(snap) = Sectors::load(store, &d.sectors_snapshot) {
+                for p in self.views[m].parts.iter().filter(|p| p.dl == dl) {
+                    for i in p.infos.iter().filter(|i| p.active.get(i.sector_number)) {
+                        if let Ok(Some(old)) = snap.get(i.sector_number) {
+                            let (a, b) = (power_for_sectors(ss, std::slice::from_ref(&old)), power_for_sectors(ss, std::slice::from_ref(i)));
+                            if a != b {
+                                out.push((p.idx, i.sector_number, pp(&a), pp(&b)));
+                            }
+                        }
+                    }
+                }
+            }
+            out
+        };
+        // send() runs the monitors: the diagnosis must be in place before, and is withdrawn when the
+        // dispute is rejected or none of the stale sectors was declared faulty by it
+        let before = self.tainted.clone();
+        if !stale.is_empty() && self.tainted.is_none() {
+            self.tainted = Some(format!("DisputeWindowedPoSt m{} dl{}: (partition, sector, power in snapshot, power now) = {:?}", m, dl, stale));
+        }
+        let nfails = self.fails.len();
         let res = self.send("dispute", format!("m{} dl{}", m, dl), &disputer, &addr, MM::DisputeWindowedPoSt as u64, Some(params));
+        let hit = code(&res) == 0 && stale.iter().any(|(pi, s, _, _)| self.views[m].parts.iter().any(|p| p.dl == dl && p.idx == *pi && p.faults.get(*s)));
+        if !hit && before.is_none() {
+            // not the diagnosed cause: whatever the monitors reported goes back under its own class
+            self.tainted = None;
+            let moved: Vec<Value> = self.fails.drain(nfails..).collect();
+            self.reported.remove(DISPUTE_SNAPSHOT_CLASS);
+            for f in moved {
+                let class = f["detail"]["first_symptom_class"].as_str().unwrap_or("?").to_string();
+                let what: Vec<String> = f["what"].as_array().map(|a| a.iter().map(|x| x.as_str().unwrap_or("").to_string()).collect()).unwrap_or_default();
+                self.fail(&class, what, f["detail"]["detail"].clone());
+            }
+        } else if hit && before.is_none() {
+            bump(self.cnt, "histories_with_dispute_recording_faults_with_stale_snapshot_power", 1);
+        }
         if code(&res) == 0 {
             bump(self.cnt, "disputes_succeeded", 1);
             self.miners[m].invalid_posts.remove(i);
@@ -1077,7 +1248,7 @@ impl<'a> Run<'a> {
         let sectors: Vec<SectorNIActivationInfo> = [a, b].iter().map(|s| SectorNIActivationInfo {
             sealing_number: *s, sealer_id: mid, sealed_cid: make_sealed_cid(format!("probe {}", s).as_bytes()), sector_number: *s, seal_rand_epoch: e0 - 1, expiration: ex,
         }).collect();
-        let params = ProveCommitSectorsNIParams { sectors, aggregate_proof: RawBytes::new(vec![1, 2, 3, 4]), seal_proof_type: SEAL_NI, aggregate_proof_type: RegisteredAggregateProof::SnarkPackV2, proving_deadline: d, require_activation_success: true };
+        let params = ProveCommitSectorsNIParams { sectors, aggregate_proof: RawBytes::new(vec![1, 2, 3, 4]), seal_proof_type: self.seal_ni, aggregate_proof_type: RegisteredAggregateProof::SnarkPackV2, proving_deadline: d, require_activation_success: true };
         let (worker, addr) = (self.miners[m].worker, self.miners[m].addr);
         let r0 = self.send("prove_commit_ni", format!("probe [{}, {}] dl{} expiration {}", a, b, d, ex), &worker, &addr, MM::ProveCommitSectorsNI as u64, Some(params));
         let mut out = vec![json!({"op": "ProveCommitSectorsNI", "epoch": e0, "expiration": ex, "code": code(&r0), "message": r0.message})];
@@ -1142,8 +1313,25 @@ fn run_case(seed: u64, index: usize, len: usize, r: &mut Prng, stats: &mut Stats
         // crons); NI sectors of these cases live a little more than 2 proving periods
         v.policy.min_sector_expiration = 2 * v.policy.wpost_proving_period;
     }
+    // 1 case in 4: 2KiB proofs, i.e. partitions of 2 sectors, so that deadlines hold several partitions
+    let small = !probe && !long_haul && index % 4 == 1;
+    let (seal, seal_ni, wpost) = if small {
+        (RegisteredSealProof::StackedDRG2KiBV1P1, RegisteredSealProof::StackedDRG2KiBV1P2_Feat_NiPoRep, RegisteredPoStProof::StackedDRGWindow2KiBV1P1)
+    } else {
+        (SEAL, SEAL_NI, WPOST)
+    };
+    let unit: u64 = if small { 2 << 10 } else { 32u64 << 30 };
+    if small {
+        v.policy.valid_pre_commit_proof_type.insert(seal);
+        v.policy.valid_prove_commit_ni_proof_type.insert(seal_ni);
+        v.policy.valid_post_proof_type.insert(wpost);
+        v.policy.minimum_verified_allocation_size = BigInt::from(256);
+        // a deadline's partitions are all proven in one message
+        v.policy.posted_partitions_max = 64;
+        bump(cnt, "cases_2KiB_proofs_partitions_of_2_sectors", 1);
+    }
     if min_power_sectors > 0 {
-        v.policy.minimum_consensus_power = BigInt::from(min_power_sectors) * BigInt::from(32u64 << 30);
+        v.policy.minimum_consensus_power = BigInt::from(min_power_sectors) * BigInt::from(unit);
     }
     let policy = v.policy.clone();
     override_compute_unsealed_sector_cid(&v);
@@ -1152,7 +1340,7 @@ fn run_case(seed: u64, index: usize, len: usize, r: &mut Prng, stats: &mut Stats
     let mut miners = vec![];
     for i in 0..n_miners {
         let owner = accts[i];
-        let (addr, _) = create_miner(&v, &owner, &owner, WPOST, &TokenAmount::from_whole(1_000_000));
+        let (addr, _) = create_miner(&v, &owner, &owner, wpost, &TokenAmount::from_whole(1_000_000));
         let sector_size = miner_info(&v, &addr).sector_size;
         miners.push(MinerCtl {
             addr,
@@ -1177,7 +1365,7 @@ fn run_case(seed: u64, index: usize, len: usize, r: &mut Prng, stats: &mut Stats
     assert_eq!(code(&rr), 0, "AddVerifiedClient: {}", rr.message);
     v.set_epoch(200 + r.below(3000) as i64);
 
-    let case_id = json!({"seed": seed, "index": index, "len": len, "miners": n_miners, "short_life": short_life, "long_haul": long_haul, "diligence": diligence, "min_power_sectors": min_power_sectors});
+    let case_id = json!({"seed": seed, "index": index, "len": len, "miners": n_miners, "short_life": short_life, "long_haul": long_haul, "diligence": diligence, "min_power_sectors": min_power_sectors, "small_sectors": small});
     let mut run = Run {
         v,
         policy,
@@ -1195,6 +1383,10 @@ fn run_case(seed: u64, index: usize, len: usize, r: &mut Prng, stats: &mut Stats
         mutate,
         filtered: BTreeSet::new(),
         rebased_after_expiry: BTreeSet::new(),
+        tainted: None,
+        seal,
+        seal_ni,
+        wpost,
     };
     run.drain();
     run.monitor("setup");
@@ -1203,6 +1395,11 @@ fn run_case(seed: u64, index: usize, len: usize, r: &mut Prng, stats: &mut Stats
         run.probe_expiration_epoch(r);
         run.repo_invariants();
         return (run.fails, run.filtered);
+    }
+
+    if index % 3 == 0 {
+        let m = r.below(n_miners as u64) as usize;
+        run.scenario_two_deadline_termination(m, r);
     }
 
     for step in 0..len {
